@@ -1,6 +1,6 @@
 #!/bin/bash
 # runs every seeded change against the quick check of its property on a scratch clone; writes seeded/RESULTS.md
-cd /verif
+cd "$(dirname "$(readlink -f "$0")")/.."
 out=seeded/RESULTS.md
 echo "# Seeded changes vs quick checks (tools/run_seeded.sh, $(date -u +%F))" > $out
 echo "" >> $out
